@@ -65,6 +65,15 @@ func programs() [][]Op {
 	return out
 }
 
+// cancelPrograms is the table of the cancellation family.
+func cancelPrograms() [][]Op {
+	ts := op("ts")
+	return [][]Op{
+		{val("ext", false)}, {val("ext", true)}, {val("other", false)}, {val("next", false)}, {val("far", false)}, {ts}, {op("async")},
+		{val("ext", false), val("ext", false)}, {ts, val("own", false)}, {val("ext", false), op("low")},
+	}
+}
+
 // thirdPrograms is the (smaller) table for the third caller of the thorough tier.
 func thirdPrograms() [][]Op {
 	return [][]Op{{op("ts")}, {op("async")}, {op("low")}, {expOp(1)}, {val("ext", false)}, {val("other", true)}, {val("far", false)}, {op("ts"), op("low")}}
@@ -119,6 +128,17 @@ func concSpecs(thorough bool) []spec {
 			return &scen{name: name, progs: progs, tick: tick, ints: ints, validation: true}
 		}})
 	}
+	addCancel := func(kind string, progs [][]Op, b sched.Bounds) {
+		var names []string
+		for _, p := range progs {
+			names = append(names, progName(p))
+		}
+		name := fmt.Sprintf("%s/P%dF%d/%s", kind, b.P, b.F, strings.Join(names, "|"))
+		progs = append([][]Op{}, progs...)
+		out = append(out, spec{name: name, b: b, mk: func() *scen {
+			return &scen{name: name, progs: progs, validation: true, cancels: true}
+		}})
+	}
 	for i := range ps {
 		for j := i; j < len(ps); j++ {
 			// interleavings of the callers, no background goroutine
@@ -126,6 +146,19 @@ func concSpecs(thorough bool) []spec {
 			// the same with the updateTS goroutine: one tick anywhere
 			// (thorough: the integer atomics of the adaptive-interval code are points as well)
 			add("tick2", [][]Op{ps[i], ps[j]}, true, thorough, sched.Bounds{P: 1, F: 1, Horizon: horizon})
+		}
+	}
+	// cancellation family: callers of ValidateReadTS / GetTimestamp whose per-call contexts can be cancelled
+	// by the explorer while they are inside the call (one cancellation per execution)
+	cp := cancelPrograms()
+	for i := range cp {
+		for j := i; j < len(cp); j++ {
+			addCancel("cancel2", [][]Op{cp[i], cp[j]}, sched.Bounds{P: 2, F: 1, Horizon: horizon})
+			if thorough {
+				for _, q := range [][]Op{{op("ts")}, {op("low")}, {val("ext", false)}} {
+					addCancel("cancel3", [][]Op{cp[i], cp[j], q}, sched.Bounds{P: 2, F: 2, Horizon: horizon})
+				}
+			}
 		}
 	}
 	if thorough {
